@@ -406,14 +406,21 @@ def customStmts (cb : CustomBuild) (cmd : String) (srcs outs : List String) (com
    (buildFromRule (customRule cb cmd) (some srcs) (pathSort outs) combined).render,
    ninjaAliasMultiple outs (outsAlias outs)]
 
-/-- a module with a `build:` section -/
-def customBuildStep (ev : EvalExpr) (flat : Flat) (m : Module) (srcdir : String) (sources : List String)
+/-- a module with a `build:` section (after the "has an output" test) -/
+def customBuildStepCore (ev : EvalExpr) (flat : Flat) (m : Module) (srcdir : String) (sources : List String)
     (combined : Option (List String)) (cb : CustomBuild) (ls : LoopState) : Except GErr LoopState := do
   let cmd ← unwrapX "generate.rs:custom build cmd" (expandEvalS ev flat .empty (" && ".intercalate cb.cmd))
   let srcs ← sources.mapM (customSource ev flat srcdir)
   let outs ← (cb.out.getD []).mapM (customOut ev flat)
   return { ls with files := ls.files.extend m.name [outsAlias outs],
                    entries := addEntries ls.entries (customStmts cb cmd srcs outs combined) }
+
+/-- a module with a `build:` section: a custom build without `out` (absent or empty) is rejected before anything is expanded — a build
+    statement must name an output (the pre-fix code wrote `build: BUILD_<h>`, which ninja refuses; found by C06's oracle) -/
+def customBuildStep (ev : EvalExpr) (flat : Flat) (m : Module) (srcdir : String) (sources : List String)
+    (combined : Option (List String)) (cb : CustomBuild) (ls : LoopState) : Except GErr LoopState :=
+  if (cb.out.getD []).isEmpty then .error (.error "generate.rs:custom build has no out")
+  else customBuildStepCore ev flat m srcdir sources combined cb ls
 
 /-! #### default build: per-extension rules, then one compile statement per source -/
 
